@@ -454,13 +454,30 @@ def witness_forest(ctx):
     return False, "witness no longer fails" + (f" with this signature (got {v[0]})" if v else "")
 
 
-WITNESSES = {"C09:RandomForestClassifier:refused-although-fits": witness_forest}
+def witness_nested(entry):
+    """multi-quantile over an axis at an exactly fitting budget: quantile(X(4x7), [0.5, 0.1], epsilon=0.3, axis=0) on
+    BudgetAccountant(0.3, 0) — the second quantile's own check(0.15, 0) sees 7 x 0.3/2/7 + 0.15 > 0.3 by rounding"""
+    def run(ctx):
+        sc = {"entry": entry, "kind": "multiq", "eps": 0.3, "state": "equal", "mode": "explicit", "decoy": "unlimited",
+              "prior": [], "seed": 0, "quants": 2, "nan_data": False, "layout": "axis0", "shape": [4, 7], "axis": 0,
+              "keepdims": False, "cells": 7}
+        res = run_scenario(sc)
+        v = res["verdict"]
+        if v and v[0] == f"C09:{entry}:mechanism-before-refusal":
+            return True, v[1]
+        return False, "witness no longer fails" + (f" with this signature (got {v[0]})" if v else "")
+    return run
+
+
+WITNESSES = {"C09:RandomForestClassifier:refused-although-fits": witness_forest,
+             "C09:quantile:mechanism-before-refusal": witness_nested("quantile"),
+             "C09:percentile:mechanism-before-refusal": witness_nested("percentile")}
 
 
 def check(ctx):
     r = ctx.fork("scenarios")
     max_cells = 400
-    n = ctx.budget(700, 9000)
+    n = ctx.budget(2400, 24000)
     entries = T.STAT_TOOLS + T.HIST_TOOLS + T.QUANT_TOOLS + MODELS
     scs = [dict(FOREST_WITNESS)]
     for i in range(n):
@@ -472,7 +489,8 @@ def check(ctx):
         ctx.count("result:" + res["kind"])
         ctx.count("mechanism_invocations", res["calls"])
         if res["verdict"]:
-            ctx.violation(res["verdict"][0], res["verdict"][1], {"scenario": sc, "result": {k: res[k] for k in ("kind", "calls", "fits", "exc")}})
+            T.report(ctx, res["verdict"][0], res["verdict"][1],
+                     {"scenario": sc, "result": {k: res[k] for k in ("kind", "calls", "fits", "exc")}})
         if res["kind"] == "budgetError" and res["fits"] and not res["verdict"]:
             ctx.count("upfront_refusal_at_exact_fit")
         if not res["kind"].startswith("other"):
